@@ -54,7 +54,13 @@ RULE = ("random DAGs of 0-25 objects (contents, skipped contents, directories bu
         "the known or the missing ids in place / sort / reverse / shuffle / extends it with foreign ids / replaces "
         "elements; further answer shapes: the very list received filtered in place, an iterator over it, one list the "
         "archive keeps and refills at every call (aliasing between rounds), ids as instances of a bytes subclass.  Every "
-        "run is bounded by 3 x objects + 6 archive queries (NonTermination = violation).  DEEP hierarchies "
+        "run is bounded by 3 x objects + 6 archive queries (NonTermination = violation).  The MODEL OBJECTS vary too (60 % of the cases, per object): Content "
+        "status visible / hidden, with or without data and ctime; SkippedContent with reason and origin built from "
+        "literals harvested from the source under test, with sha1 / sha256 / blake2s256 missing (sha1_git kept); "
+        "Directory with raw_manifest (canonical, or a zero-padded-mode manifest with its own id), explicit id, "
+        "executable files, entry names carrying harvested literals, 'rev' entries for targets outside the set; objects "
+        "built by __init__, from_data, from_dict, or as instances of a loader's subclass; contents referenced by no "
+        "directory and entries referencing nothing of the set.  DEEP hierarchies "
         "(4 per quick run, 40 per thorough run): chains of 1200-2000 nested directories with 0-2 (skipped) contents "
         "per level, combs (a leaf directory at every level of the spine), two chains sharing a long tail, with archives "
         "knowing nothing / everything / the bottom k levels, SAMPLE_SIZE 1, 3, 1000, all three samplers; termination "
@@ -68,6 +74,9 @@ ASSUMPTIONS = ["update_info_callback is any callable taking (obj, known) - nothi
                "or length; callables whose __eq__/__bool__ RAISE are not generated",
                "the archive's answers depend only on the ids asked (a fixed set of missing ids); it may do anything to the "
                "list object it is handed and may reuse the list object it returns",
+               "every given object has a sha1_git / id (a SkippedContent may lack its other hashes; one without sha1_git has no "
+               "identity discovery could key on and is outside the property); directory ids equal sha1(raw_manifest or the "
+               "canonical manifest) - directories with an arbitrary explicit id are not generated",
                "archive.contents / skipped_contents / directories are lists (or list subclasses), as the interface types them",
                "the ids of the given contents, skipped contents and directories are pairwise distinct",
                "the archive answers consistently with a set of missing ids such that a known directory has only known "
@@ -210,6 +219,8 @@ def mk_case(rng, n, shape, ss, strategy, missing_mode):
         case["archive"] = rng.choice(ARCHIVE_SHAPES[1:])
     if rng.random() < 0.4:
         case["arg"] = rng.choice(ARG_SHAPES[1:])
+    if rng.random() < 0.6:      # the model objects themselves (status, optional fields, construction route, subclasses)
+        case["objvar"] = rng.randrange(1 << 30)
     if rng.random() < 0.25:
         case["containers"] = rng.choice(CONTAINER_SHAPES[1:])
     return case
@@ -335,6 +346,8 @@ def gen_deep(rng, tier):
             c["cb"] = rng.choice(CALLBACK_SHAPES[1:-2])
         if rng.random() < 0.5:
             c["arg"] = rng.choice(ARG_SHAPES[1:])
+        if rng.random() < 0.5:
+            c["objvar"] = rng.randrange(1 << 30)
         cases.append(c)
     return cases
 
@@ -356,7 +369,7 @@ _PENDING = {}     # hashseed -> cases generated for a subprocess run (filled by 
 
 
 def gen(rng, tier):
-    n_cases = 900 if tier == "quick" else 40000
+    n_cases = 800 if tier == "quick" else 40000
     n_sub = 60 if tier == "quick" else 1500
     cases = [
         {"contents": [], "skipped": [], "dirs": [], "missing": [], "ss": 1000, "sampler": "random:0"},
@@ -373,6 +386,7 @@ def gen(rng, tier):
     cases += [dict(ex, containers="list_subclass", cb="falsy_dict", archive="methods")]
     cases += [dict(ex, arg=a, ss=k % 2 + 1) for k, a in enumerate(ARG_SHAPES[1:])]
     cases += [dict(ex, answer=a, arg="reverse") for a in ANSWER_SHAPES[7:]]
+    cases += [dict(ex, objvar=k, missing=m) for k, m in ((1, [2, 10, 12]), (2, [1, 2, 3, 10, 11, 12]), (3, []))]
     shapes = ["flat", "deep", "shared", "mixed", "dirs-only"]
     modes = ["few", "half", "leaf", "few", "half", "none", "all"]
     strategies = ["random", "deep", "shallow"]
@@ -436,6 +450,26 @@ def classify(c):
     ks += ["callback=" + c.get("cb", CALLBACK_SHAPES[0]), "archive=" + c.get("archive", ARCHIVE_SHAPES[0]),
            "answer=" + c.get("answer", ANSWER_SHAPES[0]), "containers=" + c.get("containers", CONTAINER_SHAPES[0]),
            "argument=" + c.get("arg", ARG_SHAPES[0])]
+    if "objvar" in c:
+        ks.append("objects=varied")
+        miss = set(c["missing"])
+        covered = {k for i, cs in c["dirs"] if i not in miss for k in cs}      # entries of a known directory
+        hidden = [i for i in c["contents"] if obj_variant(c, i, "content")["status"] == "hidden"]
+        if hidden:
+            ks.append("hidden-content")
+        if any(i not in covered for i in hidden):
+            ks.append("hidden-content-undecided-after-directories")
+        if any(i not in par for i in c["contents"] + c["skipped"]):
+            ks.append("unreferenced-content")
+        if any(obj_variant(c, i, "skipped")["drop"] for i in c["skipped"]):
+            ks.append("skipped-content-lacking-hashes")
+        dv = [obj_variant(c, i, "directory") for i, _ in c["dirs"]]
+        for key, test in (("directory-raw_manifest", lambda v: v["raw"]), ("subclass", lambda v: v["how"] == "subclass"),
+                          ("from_dict", lambda v: v["how"] == "from_dict")):
+            if any(test(v) for v in dv):
+                ks.append(key)
+    else:
+        ks.append("objects=plain")
     return ks
 
 
@@ -444,32 +478,144 @@ class NonTermination(Exception):
     pass
 
 
+_SUBCLASSES = {}
+
+
+def _subclasses():
+    """a loader's own subclasses of the model classes"""
+    if not _SUBCLASSES:
+        from swh.model import model
+
+        class LoaderContent(model.Content):
+            pass
+
+        class LoaderSkippedContent(model.SkippedContent):
+            pass
+
+        class LoaderDirectory(model.Directory):
+            pass
+        _SUBCLASSES.update(content=LoaderContent, skipped=LoaderSkippedContent, directory=LoaderDirectory)
+    return _SUBCLASSES
+
+
+def obj_variant(c, i, kind):
+    """How the model object for abstract id i is built (a pure function of the case's "objvar" seed and i, so that
+    classify, the subprocess runs and the replays agree).  Without "objvar": the plain from_data / Directory(entries=...)."""
+    if "objvar" not in c:
+        return {}
+    r = _random.Random(c["objvar"] * 1000003 + i * 7 + {"content": 0, "skipped": 1, "directory": 2}[kind])
+    v = {"how": r.choice(["init", "from_dict", "subclass", "from_data" if kind != "directory" else "init"]),
+         "tok": r.randrange(1 << 16), "ctime": r.random() < 0.3}
+    if kind == "content":
+        v["status"] = r.choice(["visible", "hidden", "hidden"])
+        v["data"] = r.random() < 0.5
+    elif kind == "skipped":
+        v["drop"] = [h for h in ("sha1", "sha256", "blake2s256") if r.random() < 0.3]
+        v["origin"] = r.random() < 0.5
+    else:
+        v["raw"] = r.choice([None, None, "canonical", "padded-mode"])
+        v["explicit_id"] = r.random() < 0.3
+        v["rev"] = r.random() < 0.5          # entries pointing outside the set are submodules ('rev')
+        v["names"] = r.random() < 0.4
+    return v
+
+
+_TOKS = {}
+
+
+def _tok(v, kind="bytes"):
+    if kind not in _TOKS:
+        from . import gitobj_common
+        bad = (b"/", b"\0") if kind == "bytes" else ("/", "\0")
+        _TOKS[kind] = [t for t in gitobj_common.source_tokens(kind) if bad[0] not in t and bad[1] not in t]
+    return _TOKS[kind][v["tok"] % len(_TOKS[kind])]
+
+
 def build_objects(c):
     """real swh.model.model objects for the abstract case; returns (contents, skipped, dirs, real id -> abstract id)"""
+    import datetime
     from swh.model import model
     real = {}
     objs = {}
+    sub = _subclasses()
+    ctime = datetime.datetime(2021, 3, 4, 5, 6, 7, tzinfo=datetime.timezone.utc)
     for i in c["contents"]:
-        o = model.Content.from_data(b"content %d" % i)
+        v = obj_variant(c, i, "content")
+        if not v:
+            o = model.Content.from_data(b"content %d" % i)
+        else:
+            data = _tok(v) + b"content %d" % i + (_tok(v) if v["tok"] % 3 == 0 else b"")
+            cls = sub["content"] if v["how"] == "subclass" else model.Content
+            o = cls.from_data(data, status=v["status"])
+            d = o.to_dict()
+            if not v["data"]:
+                d.pop("data", None)
+            if v["ctime"]:
+                d["ctime"] = ctime
+            if v["how"] == "from_dict":
+                o = cls.from_dict(d)
+            elif v["how"] != "from_data" or not v["data"] or v["ctime"]:
+                o = cls(**d)
         real[i] = o.sha1_git
         objs[i] = o
     for i in c["skipped"]:
-        o = model.SkippedContent.from_data(b"skipped %d" % i, reason="too big")
+        v = obj_variant(c, i, "skipped")
+        if not v:
+            o = model.SkippedContent.from_data(b"skipped %d" % i, reason="too big")
+        else:
+            cls = sub["skipped"] if v["how"] == "subclass" else model.SkippedContent
+            o = cls.from_data(_tok(v) + b"skipped %d" % i, reason=_tok(v, "str") + " (object too big)")
+            d = o.to_dict()
+            for h in v["drop"]:
+                d[h] = None          # a skipped content may lack hashes; discovery keys on sha1_git, which is kept
+            if v["origin"]:
+                d["origin"] = "https://example.org/" + _tok(v, "str").strip() + "/%d" % i
+            if v["ctime"]:
+                d["ctime"] = ctime
+            o = cls.from_dict(d) if v["how"] == "from_dict" else cls(**d)
         real[i] = o.sha1_git
         objs[i] = o
     ch = {i: cs for i, cs in c["dirs"]}
     import hashlib
 
     def make(i):
+        v = obj_variant(c, i, "directory")
         entries = []
         for j, k in enumerate(ch[i]):
             if k not in real:      # neither a content nor a directory of the set: an entry pointing outside
                 real[k] = hashlib.sha1(b"outside %d" % k).digest()
+            name = b"d%d_e%d" % (i, j)
+            if v and v["names"]:
+                name += b" " + _tok(v)
             if k in ch:
-                entries.append(model.DirectoryEntry(name=b"d%d_e%d" % (i, j), type="dir", target=real[k], perms=0o040000))
+                entries.append(model.DirectoryEntry(name=name, type="dir", target=real[k], perms=0o040000))
+            elif v and v["rev"] and k not in objs:
+                entries.append(model.DirectoryEntry(name=name, type="rev", target=real[k], perms=0o160000))
             else:
-                entries.append(model.DirectoryEntry(name=b"d%d_e%d" % (i, j), type="file", target=real[k], perms=0o100644))
-        d = model.Directory(entries=tuple(entries))
+                entries.append(model.DirectoryEntry(name=name, type="file", target=real[k],
+                                                    perms=0o100755 if v and (v["tok"] + j) % 4 == 0 else 0o100644))
+        if not v:
+            d = model.Directory(entries=tuple(entries))
+        else:
+            cls = sub["directory"] if v["how"] == "subclass" else model.Directory
+            d = cls(entries=tuple(entries))
+            kw = {}
+            if v["raw"] and entries:
+                from swh.model import git_objects
+                raw = git_objects.directory_git_object(d)
+                if v["raw"] == "padded-mode":        # a manifest git accepts but swh would not produce: its own id
+                    raw2 = raw.replace(b"\x0040000 ", b"\x00040000 ").replace(b"\x00100644 ", b"\x000100644 ")
+                    body = raw2.split(b"\x00", 1)[1]
+                    raw = b"tree %d\x00" % len(body) + body
+                kw = {"raw_manifest": raw, "id": hashlib.sha1(raw).digest()}
+                if kw["id"] == d.id:
+                    kw = {}
+            elif v["explicit_id"]:
+                kw = {"id": d.id}
+            if kw:
+                d = cls(entries=tuple(entries), **kw)
+            if v["how"] == "from_dict":
+                d = cls.from_dict(d.to_dict())
         real[i] = d.id
         objs[i] = d
 
@@ -949,7 +1095,7 @@ def _without(c, gone):
 def shrink(c):
     objs = c["contents"] + c["skipped"] + [i for i, _ in c["dirs"]]
     one_empty = lambda dirs: sum(1 for _, cs in dirs if not cs) <= 1    # directories must stay pairwise distinct
-    for key in ("cb", "archive", "answer", "containers", "arg"):      # the default shape, if the failure does not need this one
+    for key in ("cb", "archive", "answer", "containers", "arg", "objvar"):      # the default shape, if the failure does not need this one
         if key in c:
             yield {k: v for k, v in c.items() if k != key}
     if len(objs) > 16:
